@@ -507,6 +507,38 @@ def rule_cis_trans_keys(ck, repo, R):
     ck.floor(R, 5)
 
 
+def _accepted_headers(fn):
+    """header bytes MoleculeContainer.unpack lets through: the `if` over data[0] one of whose sides only raises, decided by evaluating its test
+    for every byte value (any spelling: `in (0, 2)`, `== 0 or == 2`, `!= 0 and != 2` with the raise first, a local alias of data[0])"""
+    from .r_query import _ev, _Unknown
+    from .astutil import expand_locals
+
+    class Rep(ast.NodeTransformer):
+        def visit_Subscript(self, node):
+            if src(node) == 'data[0]':
+                return ast.Name(id='V__', ctx=ast.Load())
+            return self.generic_visit(node)
+
+    def raises(block):
+        return bool(block) and isinstance(block[-1], ast.Raise)
+    for st in ast.walk(fn):
+        if not isinstance(st, ast.If):
+            continue
+        test = expand_locals(st.test, fn)
+        if 'data[0]' not in src(test):
+            continue
+        test = Rep().visit(test)
+        try:
+            truth = {v: bool(_ev(test, {'V__': v})) for v in range(256)}
+        except _Unknown:
+            continue
+        if raises(st.body) and not raises(st.orelse):
+            return {v for v, t in truth.items() if not t}
+        if raises(st.orelse) and not raises(st.body):
+            return {v for v, t in truth.items() if t}
+    return None
+
+
 def rule_unpach_dispatch(ck, repo, R):
     ck.rule(R, 'the generic unpach() hands every header MoleculeContainer.unpack accepts (version 0 and version 2) to the molecule decoder: either by trying '
                'the molecule decoder first and falling back on ValueError, or by a header test naming exactly those versions')
@@ -514,13 +546,7 @@ def rule_unpach_dispatch(ck, repo, R):
     f = m.functions.get('unpach') if m else None
     ck.require(f is not None, 'chython.containers.unpach not found')
     mu = repo.func(f'{MOL}:MoleculeContainer.unpack')
-    accepted = None
-    for n in ast.walk(mu.node):
-        if isinstance(n, ast.Compare) and src(n.left) == 'data[0]' and isinstance(n.ops[0], ast.In):
-            try:
-                accepted = set(ast.literal_eval(n.comparators[0]))
-            except Exception:
-                pass
+    accepted = _accepted_headers(mu.node)
     ck.require(accepted, 'MoleculeContainer.unpack: accepted header versions not found')
     tries = [n for n in ast.walk(f.node) if isinstance(n, ast.Try)]
     if tries:
